@@ -11,14 +11,16 @@ import (
 	"time"
 
 	"github.com/superfly/litefs"
+	"github.com/superfly/litefs/consul"
 	lhttp "github.com/superfly/litefs/http"
 	"github.com/superfly/ltx"
 	"verif/cluster"
 	"verif/core"
+	"verif/fakeconsul"
 	"verif/mon"
 )
 
-var c08Scripts = []string{"expire", "renew-errors", "demote", "handoff-connected", "handoff-chain", "handoff-unknown", "handoff-disconnected", "handoff-fails-then-loss", "non-candidate", "cluster-id-mismatch", "cluster-id-adopt", "acquire-error", "primary-info-stale", "static"}
+var c08Scripts = []string{"expire", "renew-errors", "demote", "handoff-connected", "handoff-chain", "handoff-unknown", "handoff-disconnected", "handoff-fails-then-loss", "contend", "non-candidate", "cluster-id-mismatch", "cluster-id-adopt", "acquire-error", "primary-info-stale", "static"}
 
 func init() {
 	register(&core.Check{
@@ -38,7 +40,7 @@ func init() {
 		Run:         runC08,
 		Floors: func(tier string) map[string]int {
 			m := map[string]int{"probes": 500, "loss_by_expiry": 2, "loss_by_renew_errors": 2, "loss_by_demote": 2, "loss_by_handoff": 2, "foreign_cluster_refused": 2,
-				"next_call_after_loss_checked": 8, "stream_after_loss_refused": 4, "write_after_loss_refused": 4, "lease_closed_after_loss": 6, "handoff_failed_still_primary": 2, "handoff_refused": 4, "noncandidate_never_acquired": 2}
+				"next_call_after_loss_checked": 8, "stream_after_loss_refused": 4, "write_after_loss_refused": 4, "lease_closed_after_loss": 6, "handoff_failed_still_primary": 2, "acquire_on_held_lease_refused": 4, "handoff_refused": 4, "noncandidate_never_acquired": 2}
 			for _, s := range c08Scripts {
 				m["script_"+s] = 1
 			}
@@ -247,6 +249,39 @@ func runC08(c *core.Case) {
 		ttl = 3 * time.Second
 	}
 	cl.Svc.TTL = ttl
+	// every fourth variant runs the same script with LiteFS's Consul leaser talking
+	// to a fake Consul endpoint that is backed by the same lease service
+	if variant%4 == 3 {
+		fc := fakeconsul.New(cl.Svc)
+		defer fc.Close()
+		defer func() {
+			n := 0
+			for k, v := range fc.Counts() {
+				if !strings.HasPrefix(k, "other") {
+					n += v
+				} else {
+					c.Count("consul_unsupported_requests", v)
+				}
+			}
+			c.Count("consul_requests", n)
+		}()
+		for _, cn := range cl.Nodes {
+			cn.Opts.Leaser = func(name, host, adv string) (litefs.Leaser, error) {
+				u, err := fc.URLFor(name, host, adv)
+				if err != nil {
+					return nil, err
+				}
+				l := consul.NewLeaser(u, "primary", host, adv)
+				l.TTL = ttl
+				l.LockDelay = time.Millisecond
+				if err := l.Open(); err != nil {
+					return nil, err
+				}
+				return l, nil
+			}
+		}
+		c.Count("consul_cases", 1)
+	}
 	o := newC08Obs(c, cl)
 	// blockAcquire keeps listed nodes from (re)acquiring while the script inspects them
 	var blockMu sync.Mutex
@@ -464,6 +499,61 @@ func runC08(c *core.Case) {
 			if !n.Store.IsPrimary() {
 				c.Violate("C08/primary-lost-on-refused-handoff", "n0 stopped being primary after a refused handoff", detail())
 			}
+		}
+	case "contend":
+		// A second candidate does not see the primary's info (it read the key just
+		// before the primary took it) and tries to acquire a lease that is held: it
+		// must be told so, stay a non-primary and become a replica once it sees the info.
+		n, w, ok := startPrimary()
+		if !ok {
+			return
+		}
+		defer w.close()
+		// (n1 first joins as a replica so that it knows the cluster ID; a node
+		// without it does not contend at all)
+		setBlock("n1", "acquire", errors.New("scripted: acquire unavailable"))
+		if err := cl.Start(1); err != nil || !cl.WaitConnected(1, 10*time.Second) {
+			c.Inconclusive("n1 did not join")
+			return
+		}
+		cl.Stop(1)
+		setBlock("n1", "acquire", nil)
+		setBlock("n1", "primary-info", litefs.ErrNoPrimary)
+		if err := cl.Start(1); err != nil {
+			c.Inconclusive(err.Error())
+			return
+		}
+		refused := func() int {
+			k := 0
+			for _, call := range cl.Svc.Calls() {
+				if call.Node == "n1" && call.Op == "acquire" && call.Result == "primary-exists" {
+					k++
+				}
+			}
+			return k
+		}
+		if !o.waitFor(10*time.Second, func() bool { return refused() >= 1 }) {
+			c.Inconclusive("n1 never tried to acquire the held lease")
+			return
+		}
+		// give n1 time to act on the answer (a second attempt, or - wrongly - a primary term)
+		o.waitFor(1500*time.Millisecond, func() bool { return refused() >= 2 || cl.Nodes[1].Store.IsPrimary() })
+		c.Count("acquire_on_held_lease_refused", refused())
+		if cl.Nodes[1].Store.IsPrimary() {
+			c.Violate("C08/primary-without-lease", "n1 reports primary although the lease service refused its acquire (the lease is held by n0)", detail())
+			return
+		}
+		if !n.Store.IsPrimary() {
+			c.Violate("C08/primary-lost-by-contention", "n0 stopped being primary because another candidate tried to acquire", detail())
+			return
+		}
+		setBlock("n1", "primary-info", nil)
+		if !cl.WaitConnected(1, 10*time.Second) {
+			c.Violate("C08/contender-never-replica", "n1 did not connect to the primary after it could see the primary's info", detail())
+			return
+		}
+		if _, err := w.txn(2); err != nil {
+			c.Violate("C08/primary-cannot-write", err.Error(), detail())
 		}
 	case "handoff-fails-then-loss":
 		// A handoff is requested and reaches the primary's lease loop, but cannot
